@@ -155,7 +155,7 @@ def shadowStep (p : PSys) (line : String) : Option (Option (PSys × Option (List
   | ["pk", x, n] => (shadowReader p x (Drv.nat! n) (.peek (sideB x) (Drv.nat! n))).map some
   | ["dc", x, n] => quiet (shadowReader p x (Drv.nat! n) (.discard (sideB x) (Drv.nat! n)))
   | ["rbyte", x] => quiet (shadowReader p x 1 (.readByte (sideB x)))
-  | ["rs", x, n] => quiet (shadowReader p x (Drv.nat! n) (.readString (sideB x) (Drv.nat! n)))
+  | ["rs", x, n] => (shadowReader p x (Drv.nat! n) (.readString (sideB x) (Drv.nat! n))).map some
   | ["rd", x, n] => if Drv.nat! n = 0 then some (some (p, none)) else quiet (shadowReader p x 1 (.readInto (sideB x) (Drv.nat! n)))
   | ["rel", x] => plain (pstep p (.release (sideB x)))
   | ["cls", x] => plain (pstep p (.close (sideB x)))
